@@ -17,17 +17,19 @@ type verifTrace struct {
 	after  Time
 	acc    bool
 	mach   Time // machine time when the tracer was called
+	ncalls int  // number of handler calls recorded so far
 }
 
 type verifTracer struct {
 	*TracerNoOp
 	m   *Machine
+	scn *verifScn
 	log []verifTrace
 }
 
 func (t *verifTracer) add(kind string, tx *Transition) {
 	t.log = append(t.log, verifTrace{kind: kind, mut: tx.Mutation, before: tx.TimeBefore, after: tx.TimeAfter,
-		acc: tx.IsAccepted.Load(), mach: t.m.time(nil)})
+		acc: tx.IsAccepted.Load(), mach: t.m.time(nil), ncalls: len(t.scn.calls)})
 }
 func (t *verifTracer) TransitionInit(tx *Transition)   { t.add("init", tx) }
 func (t *verifTracer) TransitionStart(tx *Transition)  { t.add("start", tx) }
@@ -53,6 +55,9 @@ type verifScn struct {
 	nestIn  string
 	nestFn  func()
 	nestRes Result
+	// fault injection (C08): returns true when the handler call must fault
+	faultHook func(name string) bool
+	faultNow  bool
 }
 
 func verifHandlerNames(names S) (neg []string, fin []string) {
@@ -85,43 +90,66 @@ func verifNewScn(n int, withAuto, withMulti, withAfter, handlers, tracer, vetoOK
 	s.m = New(nil, s.raw, opts)
 	if tracer {
 		s.tr.m = s.m
+		s.tr.scn = s
 	}
 	s.schema = s.m.schema
 	if handlers {
-		s.veto = map[string]bool{}
-		neg, fin := verifHandlerNames(s.names)
-		negs := map[string]HandlerNegotiation{}
-		fins := map[string]HandlerFinal{}
-		for _, name := range neg {
-			name := name
-			v := false
-			if vetoOK {
-				v = vBool()
-			}
-			s.veto[name] = v
-			negs[name] = func(e *Event) bool {
-				s.record(name)
-				return !s.veto[name]
-			}
-		}
-		for _, name := range fin {
-			name := name
-			fins[name] = func(e *Event) { s.record(name) }
-		}
-		s.m.HandlersBindMaps(negs, fins)
-		vServe(s.m.handlerStart, func(call *handlerCall) {
-			ret := false
-			if call.event.IsValid() {
-				ret = call.Exec()
-			}
-			vReply(s.m.handlerEnd, ret)
-		})
+		s.bindAll(vetoOK, false)
 	}
 	return s
 }
 
+// bindAll binds one map binding with every handler name and serves the handler goroutine inline.
+func (s *verifScn) bindAll(vetoOK, withException bool) {
+	s.veto = map[string]bool{}
+	hn := append(S{}, s.names...)
+	if withException {
+		hn = append(hn, StateException)
+	}
+	neg, fin := verifHandlerNames(hn)
+	negs := map[string]HandlerNegotiation{}
+	fins := map[string]HandlerFinal{}
+	for _, name := range neg {
+		name := name
+		v := false
+		if vetoOK && len(name) > 0 && name[:1] != "E" && !(len(name) > 9 && name[len(name)-9:] == "Exception") {
+			v = vBool()
+		}
+		s.veto[name] = v
+		negs[name] = func(e *Event) bool {
+			s.record(name)
+			return !s.veto[name]
+		}
+	}
+	for _, name := range fin {
+		name := name
+		fins[name] = func(e *Event) { s.record(name) }
+	}
+	s.m.HandlersBindMaps(negs, fins)
+	vServe(s.m.handlerStart, func(call *handlerCall) {
+		ret := false
+		if call.event.IsValid() {
+			ret = call.Exec()
+		}
+		if s.faultNow {
+			// what handlerLoop's deferred catch does after a real panic
+			s.faultNow = false
+			vReply(s.m.handlerPanic, recoveryData{err: "verif fault", event: call.event})
+			return
+		}
+		vReply(s.m.handlerEnd, ret)
+	})
+}
+
 func (s *verifScn) record(name string) {
 	s.calls = append(s.calls, verifCall{name: name, active: s.m.ActiveStates(nil), time: s.m.time(nil)})
+	if s.faultHook != nil && s.faultHook(name) {
+		if vSymbolic() {
+			s.faultNow = true
+			return
+		}
+		panic("verif fault")
+	}
 	if s.nestIn == name && s.nestFn != nil {
 		f := s.nestFn
 		s.nestFn = nil
@@ -146,7 +174,11 @@ func (s *verifScn) inject(symTicks bool) {
 
 // mutate issues one symbolic mutation: kind 0 Add, 1 Remove, 2 Set.
 func (s *verifScn) mutate() (kind int, called S, res Result) {
-	kind = vParam("mut", -1)
+	return s.mutateKind(vParam("mut", -1))
+}
+
+func (s *verifScn) mutateKind(k int) (kind int, called S, res Result) {
+	kind = k
 	if kind < 0 {
 		kind = vInt(0, 2)
 	}
